@@ -79,6 +79,12 @@ CHECKS = {
             're-arrangements are applied only where tag default, extensibility default and automatic tagging of '
             'the container are unaffected; behaviour observed on generated probe values',
             'metamorphic property-based testing (Hypothesis)'),
+    'C20': ('hypothesis', 'exploration',
+            'generated modules x values x indent {None,0,2,4} x numeric_enums, codec gser: an independent RFC 3641 / '
+            'X.680 value-notation reader consumes the whole text after the literal wrapper and returns the same '
+            'abstract value; consecutive different values of a type must give different text',
+            'trusts vlib/model/gser.py (type-directed reader written from RFC 3641, lenient only about optional white-space)',
+            'property-based testing (Hypothesis) against an independent reader (round-trip through the model)'),
 }
 
 ALL = ['C%02d' % i for i in range(1, 21)]
